@@ -559,7 +559,12 @@ def layout_cases():
 SPECIAL_NAMES = ["PathBuf", "Path", "OsString", "Duration", "SystemTime", "Instant", "Uuid", "Url", "DateTime", "Utc", "Value", "Bytes",
                  "Decimal", "NaiveDate", "Date", "Map", "Set", "Record", "Promise", "Array", "Error", "URL", "Object", "Function", "Symbol",
                  "Str", "Bool", "Number", "Int", "Unit", "Channel", "Result", "Option", "Vec2", "HashMapper", "State2", "Window2", "Event",
-                 "UnlistenFn", "Params", "Schema", "Types", "Z"]
+                 "UnlistenFn", "Params", "Schema", "Types", "Z",
+                 # a tool-special name as a prefix / suffix / infix of the project's own name
+                 "MapMarker", "Mapping", "MapView", "RecordingState", "Recorder", "RecordSet", "PromiseLike", "ArrayBufferView", "OptionSet",
+                 "VecDeque2", "ResultCode", "StringList", "DateRange", "SetTopBox", "HashMapEntry", "ChannelInfo", "Stringly", "Numbering",
+                 "BooleanFlag", "VoidMarker", "AnyValue", "UnknownKind", "NullState", "UndefinedState", "TypesRegistry", "ParamsBag",
+                 "UserRecord", "RoadMap", "MyRecordKeeper", "BitMapLayer", "AppHandleInfo", "StateMachine", "WindowLayout"]
 
 
 def special_name_cases():
@@ -573,7 +578,8 @@ def special_name_cases():
             t = P(nm)
             items = [leaf, st("Holder" + ("E" if as_enum else "S"), [("slot", t), ("many", P("Vec", t)), ("by_key", P("HashMap", P("String"), t))]),
                      fn("take_it", [("arg", t), ("opt", P("Option", t))], None),
-                     fn("give_it", [], t), fn("give_many", [], P("Result", P("Vec", t), P("String"))),
+                     fn("give_it", [], t), fn("give_many", [], P("Result", P("Vec", t), P("String"))), fn("maybe_it", [], P("Option", t)),
+                     fn("fire_many", [APP, ("pl", Ref(t))], None, [emit("fired-ref", ["var", "pl"], ref=True)], command=False),
                      fn("hold_it", [("h", P("Holder" + ("E" if as_enum else "S")))], None),
                      fn("stream_it", [("on_msg", P("Channel", t))], None),
                      fn("fire_it", [APP, ("pl", t)], None, [emit("fired", ["var", "pl"])], command=False)]
